@@ -252,8 +252,25 @@ def projection_case(ctx, rng, given=None):
     exp = P[np.ix_(*orders)] if nd else P
     outside_nonzero = bool(np.any(D[~mask] != 0))
     unsorted = any(l != sorted(l) for l in labels)
-    fmt = rng.choice(["list", "dict", "tuple"])
-    maps = [l if fmt == "list" else (dict(enumerate(l)) if fmt == "dict" else tuple(l)) for l in labels]
+    fmt = rng.choice(["list", "dict", "tuple", "dict-shuffled", "ndarray"])
+
+    def as_map(l):
+        if fmt == "list":
+            return l
+        if fmt == "dict":
+            return dict(enumerate(l))
+        if fmt == "tuple":
+            return tuple(l)
+        if fmt == "dict-shuffled":
+            items = list(enumerate(l))
+            rng.shuffle(items)  # same mapping, another insertion order
+            return dict(items)
+        if l and not isinstance(l[0], tuple):
+            return np.array(l)
+        return list(l)
+
+    maps = [as_map(l) for l in labels]
+    ctx.count("labels-form", fmt)
     inv = rng.choice(["ignore", "warn", "raise"])
     w = {"symmetry": sym, "class": cls.__name__, "labels": [list(map(repr, l)) for l in labels], "duals": duals, "charge": repr(charge), "dense": repr(D.tolist()), "invalid_sectors": inv}
     ctx.count("kind", kind)
